@@ -330,3 +330,47 @@ LEVEL_TEXT["C19"] = {
     "note": "Interleavings of submitters and the suspend hand-shake are sampled; the controller pool is never saturated with blocking callers.",
     "technique": "property-based testing (generated suspend/resume histories, ledger + window oracles, fork-per-case real runtime)",
 }
+
+def procs(src, q_cases, q_budget, t_cases, t_budget, shards=12, **kw):
+    d = {"src": src, "flavour": "rel", "engine": "E-proc",
+         "quick": {"shards": shards, "cases": q_cases, "budget": q_budget, "size": 100},
+         "thorough": {"shards": shards, "cases": t_cases, "budget": t_budget, "size": 100}}
+    d.update(kw)
+    return d
+
+PROPS["C15"] = {
+    "targets": [procs("props/C15_pinning.cpp", 2000, 70, 30000, 900)],
+    "rule": "case = topology (synthetic hwloc 'pack:p core:c pu:t' with p in 1..4, c in 1..8, t in {1,2,4}, at most 16 PUs (masks are sized by the real hardware concurrency), or the real 1x16x1 "
+            "machine) x process mask (full / random subset / contiguous window / one hardware thread per core on later sockets; via "
+            "--pika:process-mask, PIKA_PROCESS_MASK or --pika:ignore-process-mask) x threads in {1..#PUs(mask)+1, cores, all} x bind in "
+            "{compact, scatter, balanced, numa-balanced, none, default} x optional second pool taking 1..2 PUs through the resource "
+            "partitioner; the live runtime dumps per-worker affinity masks, reported PU numbers, pool sizes (and sched_getaffinity of every "
+            "worker on the real topology); non-trivial iff SMT or multi-socket topology with a strict-subset mask and >=2 threads; distinct by hash",
+    "floor": {"quick": 50, "thorough": 500},
+    "assumptions": ["under synthetic topologies hwloc cannot really bind: OS-level affinity is compared only on the real topology"],
+}
+LEVEL_TEXT["C15"] = {
+    "text": "Generated (topology, process mask, thread count, binding mode, pool partition) configurations start the real runtime in a fresh process under hwloc synthetic topologies; validity predicates on what the live runtime reports: every worker bound to exactly one PU (bind != none), inside the effective mask, pairwise distinct, reported PU number equal to the bound PU, pool sizes summing to the worker count, 'cores' = one worker per core in the mask, 'all' = PUs in the mask, a thread count above the PUs in the mask rejected at start-up, bind=none leaves workers unbound; on the real topology also sched_getaffinity of every worker.",
+    "note": "One physical topology; multi-socket / SMT paths are reached through HWLOC_SYNTHETIC, where the OS-level binding itself cannot be observed.",
+    "technique": "property-based testing (generated configurations, validity predicates on the live runtime's report, one process per case)",
+}
+
+PROPS["C16"] = {
+    "targets": [procs("props/C16_config.cpp", 1500, 70, 20000, 900)],
+    "rule": "case = 1..3 settings out of {threads, scheduler, small stack size, bind, process mask, a plain existing ini entry (pika.max_busy_loop_count; unknown keys are rejected by pika)}, each given "
+            "through a generated subset of its sources {environment variable, PIKA_COMMANDLINE_OPTIONS, --pika:ini=key=value, dedicated "
+            "option} with pairwise distinct valid values (stack sizes in hex or decimal), options and positional arguments interleaved in a "
+            "generated order, optional '--' tail; or one invalid input (non-numeric / zero thread count, unknown --pika: option, unknown "
+            "scheduler, garbage in PIKA_THREADS or in a stack size); the probe is a freshly exec'ed process whose entry function reports what "
+            "the live runtime uses; non-trivial iff some setting has >=2 sources or the input is invalid; distinct by hash",
+    "floor": {"quick": 50, "thorough": 500},
+    "assumptions": ["reference order (docs/usage.rst + statement): dedicated option > --pika:ini on the command line > environment variable; dedicated option > "
+                    "PIKA_COMMANDLINE_OPTIONS > environment variable; the relative order of --pika:ini and PIKA_COMMANDLINE_OPTIONS is not claimed and not generated",
+                    "application options other than positional arguments need pika.commandline.allow_unknown and are not generated",
+                    "'stops start-up with an error' is judged liberally: the entry function never runs and the process reports failure (exception, terminate or non-zero result)"],
+}
+LEVEL_TEXT["C16"] = {
+    "text": "Generated combinations of sources per setting with distinct values (so the winner is identifiable) are applied to a freshly exec'ed probe process; the reference model is the documented precedence order; the observed value is what the live runtime uses (worker count, scheduler of the default pool, stack size a default task really runs on and can touch, pinned vs unpinned workers, config entry, argv seen by the entry function, init's result); invalid values and unknown pika options must keep the entry function from running and report failure.",
+    "note": "One process per case on the real 1x16x1 topology; binding modes other than none are only distinguished from 'none'.",
+    "technique": "property-based testing (generated source/value combinations vs reference precedence model, one exec'ed process per case)",
+}
